@@ -1043,6 +1043,20 @@ impl GridSimC {
         self.root.join("geodesy").join(ext_of(n)).join(n)
     }
 
+    /// For the constant geoid grids: the shift the operator applies at the node (0, 0),
+    /// which is the version number of the grid it holds
+    fn observed_version(ctx: &Plain, h: OpHandle, name: u8) -> Option<f64> {
+        let n = NAMES_C[name as usize % NAMES_C.len()];
+        if !n.ends_with(".geoid") {
+            return None;
+        }
+        let mut data = vec![Coor4D(PROBES_C[0])];
+        match catch(|| ctx.apply(h, Fwd, &mut data)) {
+            Ok(Ok(1)) => Some(PROBES_C[0][2] - data[0][2]),
+            _ => None,
+        }
+    }
+
     fn fingerprint(ctx: &Plain, h: OpHandle) -> Result<u64, String> {
         catch(|| {
             let mut d = Hash128::new();
@@ -1215,6 +1229,9 @@ impl Engine for GridSimC {
         let mut fault_seen = false;
         let mut nontrivial = false;
         let mut recovered_pending: Vec<bool> = vec![false; NAMES_C.len()];
+        // versions some operator of this run has loaded; whether one holds an accepted damaged grid
+        let mut ever_loaded: Vec<std::collections::BTreeSet<u32>> = vec![Default::default(); NAMES_C.len()];
+        let mut ever_unknown: Vec<bool> = vec![false; NAMES_C.len()];
 
         for (k, ev) in plan.events.iter().enumerate() {
             if rec.failed() {
@@ -1354,15 +1371,41 @@ impl Engine for GridSimC {
                         }
                         Ok(r) => r,
                     };
-                    // what the model allows
-                    let (must_ok, expect): (Option<bool>, Option<u32>) = match (&cache[i], &disk[i]) {
-                        (CacheState::Known(v), _) => (Some(true), Some(*v)),
-                        (CacheState::Unknown, _) => (Some(true), None),
-                        (CacheState::Maybe, _) => (None, None),
-                        (CacheState::Empty, DiskState::Good(v)) => (Some(true), Some(*v)),
-                        (CacheState::Empty, DiskState::Absent) => (Some(false), None),
-                        (CacheState::Empty, DiskState::Damaged) => (None, None),
+                    // What the model demands. Which version a *new* operator gets is left open
+                    // (a cache may keep sharing whatever some live operator still holds, or drop
+                    // what it likes); what is demanded: a complete file on disk must give an
+                    // operator, a file that is absent and was never loaded must give an error,
+                    // and an operator's values are those of *some* version the file really had
+                    // (or, where a damaged file was accepted earlier, of that safely usable grid).
+                    let loaded_before = !ever_loaded[i].is_empty() || ever_unknown[i];
+                    // (a damaged grid that was accepted earlier may still be cached or shared, and
+                    // an operator needing another band count then fails on it: §15.4)
+                    let damaged_grid_around = ever_unknown[i] || matches!(cache[i], CacheState::Unknown | CacheState::Maybe);
+                    let must_ok: Option<bool> = match &disk[i] {
+                        DiskState::Good(_) => {
+                            if damaged_grid_around {
+                                None
+                            } else {
+                                Some(true)
+                            }
+                        }
+                        DiskState::Absent => {
+                            if loaded_before {
+                                None
+                            } else {
+                                Some(false)
+                            }
+                        }
+                        DiskState::Damaged => None,
                     };
+                    // the plain "cache, else disk" reading, used as the first guess
+                    let canonical: Option<u32> = match (&cache[i], &disk[i]) {
+                        (CacheState::Known(v), _) => Some(*v),
+                        (CacheState::Empty, DiskState::Good(v)) => Some(*v),
+                        _ => None,
+                    };
+                    let unknown_allowed = ever_unknown[i] || disk[i] == DiskState::Damaged || matches!(cache[i], CacheState::Unknown | CacheState::Maybe);
+                    let mut expect: Option<u32> = canonical;
                     if cache[i] != CacheState::Empty && disk[i] != DiskState::Good(match cache[i] { CacheState::Known(v) => v, _ => u32::MAX }) {
                         rec.probe("op_served_from_cache_while_disk_damaged");
                     }
@@ -1371,16 +1414,54 @@ impl Engine for GridSimC {
                     }
                     match (made, must_ok) {
                         (Ok(h), Some(true)) | (Ok(h), None) => {
-                            if must_ok.is_none() {
-                                rec.probe("damaged_file_accepted_as_grid");
-                                if cache[i] == CacheState::Empty {
-                                    cache[i] = CacheState::Unknown;
+                            // which version did it get? (observable exactly for the geoid grids)
+                            let mut admissible: Vec<u32> = ever_loaded[i].iter().copied().collect();
+                            if let DiskState::Good(v) = disk[i] {
+                                if !admissible.contains(&v) {
+                                    admissible.push(v);
                                 }
-                            } else if let Some(v) = expect {
-                                cache[i] = CacheState::Known(v);
-                                if recovered_pending[i] {
-                                    rec.probe("op_after_recovery");
-                                    recovered_pending[i] = false;
+                            }
+                            let observed = Self::observed_version(&ctxs[c], h, *name);
+                            match observed {
+                                Some(z) => {
+                                    match admissible.iter().find(|v| ((**v as f64) - z).abs() <= 1e-9) {
+                                        Some(v) => expect = Some(*v),
+                                        None if unknown_allowed => expect = None,
+                                        None => {
+                                            rec.violate(
+                                                "I-faith",
+                                                "operator does not reproduce the values of the grid version it loaded",
+                                                format!("event {}: op('{}') shifts by {} although its file only ever held versions {:?} (disk {:?}, cache {:?})", k, def, z, admissible, disk[i], cache[i]),
+                                            );
+                                            break;
+                                        }
+                                    }
+                                }
+                                // not a grid whose values the model can read back exactly
+                                None => {
+                                    if must_ok != Some(true) || unknown_allowed {
+                                        expect = None;
+                                    }
+                                }
+                            }
+                            if expect != canonical {
+                                rec.probe("new_operator_got_another_admissible_version");
+                            }
+                            match expect {
+                                Some(v) => {
+                                    cache[i] = CacheState::Known(v);
+                                    ever_loaded[i].insert(v);
+                                    if recovered_pending[i] {
+                                        rec.probe("op_after_recovery");
+                                        recovered_pending[i] = false;
+                                    }
+                                }
+                                None => {
+                                    rec.probe("damaged_file_accepted_as_grid");
+                                    ever_unknown[i] = true;
+                                    if cache[i] == CacheState::Empty || matches!(cache[i], CacheState::Known(_)) {
+                                        cache[i] = CacheState::Unknown;
+                                    }
                                 }
                             }
                             let fp = match Self::fingerprint(&ctxs[c], h) {
@@ -1400,14 +1481,14 @@ impl Engine for GridSimC {
                             rec.logf(|| format!("e{} op ctx{} {} -> err {}", k, c, NAMES_C[i], util::normalize_message(&e.to_string())));
                         }
                         (Ok(_), Some(false)) => {
-                            rec.violate("I-faith", "operator instantiates although its grid file is absent and not cached", format!("event {}: '{}'", k, def));
+                            rec.violate("I-faith", "operator instantiates although its grid file is absent and was never loaded", format!("event {}: '{}'", k, def));
                             break;
                         }
                         (Err(e), Some(true)) => {
                             let inv = if recovered_pending[i] { "I-recover" } else { "I-faith" };
                             rec.violate(
                                 inv,
-                                "operator fails although a complete well-formed grid file is on disk (or the grid is cached)",
+                                "operator fails although a complete well-formed grid file is on disk",
                                 format!("event {}: op('{}') -> {} with disk {:?} cache {:?}", k, def, e, disk[i], cache[i]),
                             );
                             break;
